@@ -38,4 +38,7 @@ def run_one(mid, props):
 
 ids = list(cat) if sys.argv[1] == 'all' else [sys.argv[1]]
 for mid in ids:
-    run_one(mid, sys.argv[2:])
+    try:
+        run_one(mid, sys.argv[2:])
+    except AssertionError as e:      # a catalogue pattern that no longer occurs in the (repaired) source: reported, not fatal
+        print(mid, 'STALE', e, flush=True)
